@@ -285,7 +285,7 @@ func (p *parser) timeC() *TimeC {
 	case "t":
 		c := &TimeC{}
 		c.Before, c.After = p.int(), p.int()
-		if c.Before < 0 || c.After < 0 {
+		if !timeInRange(c.Before) || !timeInRange(c.After) {
 			p.bad = true
 		}
 		return c
@@ -346,7 +346,7 @@ func (p *parser) perm(depth int) *PermC {
 	}
 	c := &PermC{}
 	c.At = p.int()
-	if c.At < 0 {
+	if !timeInRange(c.At) {
 		p.bad = true
 	}
 	c.Attr, c.SkipHidden = p.str(), p.flag()
